@@ -133,6 +133,22 @@ func tablePolicyRule(c *Ctx, r *Report, rule string) {
 	r.Check(len(badOps) == 0, rule, "table:sensitive-operators-not-pass-through", "src/operators.go",
 		fmt.Sprintf("%d value-bearing operators are never typed Exempt/FieldName/Namespace in the merged core table", len(sensitive)+1),
 		fmt.Sprintf("value-bearing operators typed pass-through: %v", badOps))
+	// positions that hold a LIST of search operators (the clauses of compound) are walked
+	// element by element by the stage walker only when typed OperatorArray; typed Redactable
+	// the list goes to the query walker, which knows neither the per-operator member types nor
+	// the user-document positions (moreLikeThis.like) below it (hunt 4, F-58)
+	for _, k := range []string{"must", "mustNot", "should", "filter"} {
+		v, ok := t.Lookup("SearchOperators", "compound", k)
+		got := "absent"
+		if ok && v.Kind == "leaf" {
+			got = t.LeafName(v)
+		} else if ok {
+			got = v.Kind
+		}
+		r.Check(got == "OperatorArray", rule, "table:SearchOperators:compound."+k+"=OperatorArray(clause-list)", "src/operators.go",
+			"the clause list is walked clause by clause by the stage walker",
+			"compound."+k+" is "+got+": its clauses are not walked by the stage walker, so the member types of the operators inside (Exempt options, user-document positions such as moreLikeThis.like) are decided by bare key names - a user field called numBuckets / score / fuzzy keeps its value")
+	}
 }
 
 // C04-R4 / C05-R4: exemptions the statement requires.
